@@ -2,6 +2,7 @@ package verifworld
 
 import (
 	"fmt"
+	metav1 "k8s.io/apimachinery/pkg/apis/meta/v1"
 	"sort"
 	"strings"
 
@@ -248,6 +249,7 @@ func PropC08(c *vs.Case, f Factory, o RolloutOpts) error {
 	if shuffleRevs {
 		c.Class("revision-claims-relisted-in-another-order")
 	}
+	afterHiccup := false // the step model does not know the states a half-finished sync leaves: liveness rules only from then on
 	fairSync := func() (*SyncTrace, error) {
 		env.MakeHealthy()
 		if shuffleRevs {
@@ -281,7 +283,7 @@ func PropC08(c *vs.Case, f Factory, o RolloutOpts) error {
 			return t, withTrace(vs.Violf("C08/sync-error", "sync failed under a fault-free, fair environment: %v", t.Err), t)
 		}
 		// never wait on a child that exists, is up to date and passes its checks
-		if cond := condOf(env.Parent(), "Updated"); !twoKinds && cond != nil && cond["reason"] == "RolloutWaiting" && model.Reason != "RolloutWaiting" {
+		if cond := condOf(env.Parent(), "Updated"); !twoKinds && !afterHiccup && cond != nil && cond["reason"] == "RolloutWaiting" && model.Reason != "RolloutWaiting" {
 			return t, withTrace(vs.Violf("C08/waits-on-healthy-child", "parent reports RolloutWaiting (%v) although every child on the latest revision exists, is up to date and healthy (model: %s)", cond["message"], model.Reason), t)
 		}
 		return t, nil
@@ -324,8 +326,56 @@ func PropC08(c *vs.Case, f Factory, o RolloutOpts) error {
 		n = nn
 	}
 	bound := 3*n + 6
+	// One hiccup: a single write of a single sync fails (refused before it is stored, or stored with the answer
+	// lost). Every child still turns healthy after each update, so the antecedent holds and the rollout has to
+	// finish all the same, a constant number of syncs later.
+	hiccupAt := -1
+	if c.Prob(1, 4) {
+		hiccupAt = c.Int(2*n + 2)
+		bound += 4
+	}
 	var last *SyncTrace
 	for i := 0; i < bound; i++ {
+		if i == hiccupAt {
+			k := c.Int(4)
+			kind := c.PickStr("500", "409", "lost-answer")
+			env.MakeHealthy()
+			env.W.SyncAll()
+			seen := 0
+			hit := ""
+			env.W.Sim.Before = func(r *vs.Request) *vs.Fault {
+				if !r.Mutating() {
+					return nil
+				}
+				seen++
+				if seen-1 != k {
+					return nil
+				}
+				hit = r.Verb + " " + r.Def.Resource + " " + r.Name
+				switch kind {
+				case "500":
+					return &vs.Fault{Code: 500, Reason: metav1.StatusReasonInternalError}
+				case "409":
+					return &vs.Fault{Code: 409, Reason: metav1.StatusReasonConflict}
+				}
+				return &vs.Fault{AfterCommit: true, Transport: fmt.Errorf("connection reset by peer")}
+			}
+			t := env.Sync()
+			env.W.Sim.Before = nil
+			if t.Panic != "" {
+				return vs.Violf("C08/panic", "panic: %s", t.Panic)
+			}
+			afterHiccup = true
+			if hit != "" {
+				c.Class("hiccup-%s", kind)
+				if strings.Contains(hit, "controllerrevisions") {
+					c.Class("hiccup-on-a-controllerrevision-write")
+				}
+				log = append(log, fmt.Sprintf("sync %d: write #%d (%s) failed: %s", i, k, hit, kind))
+			}
+			last = t
+			continue
+		}
 		t, err := fairSync()
 		if err != nil {
 			return err
